@@ -208,7 +208,7 @@ fn judge_n(m: Method, n: usize, levels: &[f64], s: &mut Sink) {
 }
 
 fn run(tier: Tier) -> Sink {
-    let nmax = tier.pick(600, 2000);
+    let nmax = tier.pick(600, 6000);
     let levels = mc::levels(tier).to_vec();
     let mut jobs: Vec<(Method, usize)> = vec![];
     for n in 4..=nmax {
@@ -245,7 +245,7 @@ fn main() {
     s.sample(json!({"m":"Wilson","n":30,"k":7,"kind":"Upper","level":0.95,"relations":["low(k=7)<=low(k=8)","[lo,1] = 1-[0,hi] of (30,23) Lower","low(0.95) > low(0.975)","low(60,14) > low(30,7)","0<=lo<=1"]}));
     s.sample(json!({"m":"Wald","n":40,"k":20,"kind":"Two","level":0.5,"relations":["mirror","monotone-k","level","shrink with m in {2,3,5,10}"]}));
     s.sample(json!({"m":"Wilson","n":4,"k":2,"kind":"Two","level":0.9999,"relations":["midpoint between k/n and 1/2"]}));
-    rep.rule = format!("every admissible (n,k) (Wilson: 2<=k<=n-2, Wald: 10<=k<=n-10) for n<={} x {} levels x 3 kinds through proportion::ci / ci_z_normal, plus the same proportion at (m n, m k) for m in {{2,3,5,10}} and, for n in {{4,5,20,64,100,600}}, at m in {{2^20, 2^31, 2^40}} (chain of strictly narrower intervals, mirror image and [0,1] at the big populations; a panic counts as no interval); relations checked between real runs; distinct by (method, kind, k/n<1/2, level>1/2)", tier.pick(600, 2000), mc::levels(tier).len());
+    rep.rule = format!("every admissible (n,k) (Wilson: 2<=k<=n-2, Wald: 10<=k<=n-10) for n<={} x {} levels x 3 kinds through proportion::ci / ci_z_normal, plus the same proportion at (m n, m k) for m in {{2,3,5,10}} and, for n in {{4,5,20,64,100,600}}, at m in {{2^20, 2^31, 2^40}} (chain of strictly narrower intervals, mirror image and [0,1] at the big populations; a panic counts as no interval); relations checked between real runs; distinct by (method, kind, k/n<1/2, level>1/2)", tier.pick(600, 6000), mc::levels(tier).len());
     rep.assume("strict narrowing with n is claimed for two-sided intervals at every level and for one-sided intervals at levels > 1/2 (below 1/2 the finite bound lies beyond k/n and moves towards it, which widens [bound, 1]); those cases are counted as skipped");
     rep.assume("[0,1] and midpoint clauses are asserted for the default (Wilson) interval only; Wald bounds legitimately leave [0,1]");
     rep.require(s.distinct() >= 12, "fewer than 12 distinct classes: vacuous");
